@@ -1692,8 +1692,8 @@ end XotModel.Props
     # ================================================================================================
 
   `C05_frame_general2`: the statement of `C05_frame_general` for the domain `XCall.framed2` = `framed` and
-  map clear, append of an entry node (`append_attribute_node` / `append_namespace_node`), `any_append`
-  (Model/FframeSpec2.lean), with `writtenParents2 = writtenParents ++ extraWritten`.
+  map clear, append of an entry node (`append_attribute_node` / `append_namespace_node`), `any_append`,
+  `remove_insignificant_whitespace` (Model/FframeSpec2.lean), with `writtenParents2 = writtenParents ++ extraWritten`.
 
   `writtenParents` alone is NOT enough for the append of an entry node whose key is present in the target element: the
   existing entry node of the target takes the value and is neither the target nor a text child
@@ -1702,13 +1702,13 @@ end XotModel.Props
   node the rule selects, and the parent of `n` is outside the subtree of `n`
   (`C05_writtenParents_misses_parent_of_stripped_text`); `extraWritten` adds the parent.
 
-  NOT in `framed2`: remove_insignificant_whitespace, create_missing_prefixes, deduplicate_namespaces. -/
+  NOT in `framed2`: create_missing_prefixes, deduplicate_namespaces. -/
 
 namespace XotModel.Props
 open XotModel Spec
 
 /-- ⟦C05_frame_general2⟧ **No other node is created, lost, reordered or altered** — the calls of `XCall.framed2`
-    (the 21 kinds of `framed`, map clear, append of an entry node, any_append).  Every forest with the invariant,
+    (the 21 kinds of `framed`, map clear, append of an entry node, any_append, remove_insignificant_whitespace).  Every forest with the invariant,
     every call with live arguments that answers `ok`, every live node `h` outside `writtenParents2`, outside the
     removed subtree and outside the moved subtree: `h` is live afterwards, has the same value and the same children
     (the same handles in the same order); and if its parent `p` is such a node too, `p` is still its parent. -/
@@ -1783,6 +1783,40 @@ example :
     m.framed2 = true ∧ (m.run s).2 = .ok ∧ m.writtenParents2 s.forest = [0, 1] ∧
     (m.run s).1.forest.kidHandles 0 = [2] ∧ (m.run s).1.forest.kidHandles 4 = [5] ∧
     (m.run s).1.forest.value? 2 = s.forest.value? 2 := by
+  decide +kernel
+
+/-- `remove_insignificant_whitespace(n)` by itself: every live node outside the subtree of `n` that is not the
+    parent of `n` keeps value and children. -/
+theorem C05_frame_removeInsignificantWhitespace {f : Forest} (inv : f.Inv) {n : Nat} (hn : f.isLive n = true)
+    {h : Nat} (hl : f.isLive h = true) (hz : h ∉ f.subtreeHandles n) (hp : some h ≠ f.parent? n) :
+    (f.removeInsignificantWhitespace n).isLive h = true ∧
+    (f.removeInsignificantWhitespace n).value? h = f.value? h ∧
+    (f.removeInsignificantWhitespace n).kidHandles h = f.kidHandles h := by
+  obtain ⟨t, hg⟩ := Forest.get_of_live hn
+  have fr := (getFrame_riw inv hg (not_mem_handles_of_subtree hg hz) hp).frameAt hl
+  exact ⟨fr.live, fr.value, fr.kids⟩
+
+/-- `<e>·<u/></e>` (0; the whitespace text 1; 2) and a second tree `<g>·</g>` (3; 4). -/
+def frameWitness3 : Forest :=
+  { roots := [.node 0 (.element 2) [.node 1 (.text [' ']) [], .node 2 (.element 3) []],
+              .node 3 (.element 4) [.node 4 (.text [' ']) []]],
+    next := 5 }
+
+/-- ⟦C05_writtenParents_misses_parent_of_stripped_text⟧ `remove_insignificant_whitespace(1)` on `frameWitness3`, the
+    start node being itself a whitespace text node the rule selects: it is removed; its parent 0 is live, not in
+    `writtenParents` (the subtree of 1) — and its child list changes.  With `writtenParents2` it is listed.  The other
+    tree is framed; the call on `e` itself writes inside `e` only. -/
+theorem C05_writtenParents_misses_parent_of_stripped_text :
+    let s : Store := ⟨frameWitness3, Env.fresh⟩
+    let c : Forest.XCall := .removeInsignificantWhitespace 1
+    let d : Forest.XCall := .removeInsignificantWhitespace 0
+    s.forest.inv = true ∧ (c.run s).2 = .ok ∧ s.forest.isLive 0 = true ∧
+    c.writtenParents s.forest = [1] ∧ c.removedHandles s.forest = [] ∧ c.movedSubtree s.forest = [] ∧
+    s.forest.kidHandles 0 = [1, 2] ∧ (c.run s).1.forest.kidHandles 0 = [2] ∧
+    c.writtenParents2 s.forest = [1, 0] ∧ c.framed2 = true ∧
+    (c.run s).1.forest.kidHandles 3 = [4] ∧
+    d.framed2 = true ∧ d.writtenParents2 s.forest = [0, 1, 2] ∧ (d.run s).1.forest.kidHandles 0 = [2] ∧
+    (d.run s).1.forest.kidHandles 3 = [4] ∧ (d.run s).1.forest.value? 4 = s.forest.value? 4 := by
   decide +kernel
 
 /-- ⟦C05_reachable_frame_general2_full⟧ … on every store a history of parses and API calls reaches from
